@@ -558,7 +558,14 @@ func unset(parent, child trienode.Node, key *Path, pos uint8, removeLeft bool) e
 		cld.Flags = trienode.NewNodeFlag()
 		return unset(cld, cld.Child, key, pos+cld.Path.Len(), removeLeft)
 
-	case nil, *trienode.HashNode, *trienode.ValueNode:
+	case *trienode.ValueNode:
+		// The boundary key exists and its leaf hangs directly off a binary node. The range is
+		// inclusive, so this leaf has to come from the supplied keys like every other element.
+		if bn, ok := parent.(*trienode.BinaryNode); ok {
+			bn.Children[key.Bit(pos-1)] = nil
+		}
+		return nil
+	case nil, *trienode.HashNode:
 		// Child is nil, nothing to unset
 		return nil
 	default:
